@@ -56,6 +56,14 @@ def _event_classes() -> list[type]:
     return [E0, E1, E2]
 
 
+class _FilterObject:
+    def __init__(self, fn: Any) -> None:
+        self.fn = fn
+
+    def __call__(self, ev: Any) -> bool:
+        return self.fn(ev)
+
+
 def _passes(fid: str, k: int) -> bool:
     if k == SENTINEL:
         return True
@@ -551,6 +559,8 @@ class SeqInterp:
                     cs = [tuple(c) for c in op["chans"]]
                     sigs = [getattr(insts[i], a) for i, a in cs]
                     flt = None if op["filter"] == "none" else (lambda ev, f=op["filter"]: _passes(f, ev.k))
+                    if flt is not None and op["sid"] % 2:
+                        flt = _FilterObject(flt)  # a callable object as filter
                     try:
                         if op["api"] == "method":
                             cm = sigs[0].stream_events(flt, max_queue_size=op["maxq"])
